@@ -244,3 +244,39 @@ def build(spec, data):
     if spec['weight']:
         formulas['weight'] = Variable(spec['weight'])
     return db, formulas, made
+
+
+DIRECTED = {
+    # name: (description, runs)
+    'capped_at_start': ('binary logit, 20000 rows, one coefficient declared in [-1, 1] and started at 0 (true value -0.5)',
+                        [['automatic', 'estimate'], ['simple_bounds', 'estimate'], ['simple_bounds_newton', 'estimate'],
+                         ['simple_bounds_BFGS', 'estimate'], ['simple_bounds', 'quick_estimate'], ['scipy', 'estimate'],
+                         ['TR-newton', 'estimate']]),
+    'nan_linesearch': ('hand-written binary logit log(exp(V_c)/sum exp(V)), 200 rows, one coefficient on attributes of standard '
+                       'deviation 10, started at 0',
+                       [['LS-BFGS', 'estimate'], ['LS-BFGS', 'quick_estimate'], ['simple_bounds', 'estimate'], ['scipy', 'estimate'],
+                        ['LS-newton', 'estimate'], ['TR-newton', 'estimate'], ['TR-BFGS', 'estimate']]),
+}
+
+
+def directed_problem(name):
+    """hand-made problems that reproduce the recorded findings at every run (independent of VERIF_SEED and of make_problem)"""
+    if name == 'capped_at_start':
+        rng = np.random.default_rng(0)
+        N = 20000
+        x1, x2 = np.round(rng.normal(0, 1, N), 4), np.round(rng.normal(0, 1, N), 4)
+        ch = np.where(rng.random(N) < 1 / (1 + np.exp(0.5 * (x1 - x2))), 1, 2)
+        par = {'B': {'status': 0, 'value': 0.0, 'start': 0.0, 'lb': -1.0, 'ub': 1.0, 'typ': 1.0}}
+        form = 'library'
+    elif name == 'nan_linesearch':
+        rng = np.random.default_rng(0)
+        N = 200
+        x1, x2 = np.round(rng.normal(0, 10, N), 4), np.round(rng.normal(0, 10, N), 4)
+        ch = np.where(rng.random(N) < 1 / (1 + np.exp(-0.1 * (x1 - x2))), 1, 2)
+        par = {'B': {'status': 0, 'value': 0.0, 'start': 0.0, 'lb': None, 'ub': None, 'typ': 0.1}}
+        form = 'handwritten'
+    else:  # pragma: no cover
+        raise ValueError(name)
+    spec = {'family': 'logit', 'utilities': {'1': [['B', 'x_1', 1.0]], '2': [['B', 'x_2', 1.0]]}, 'avail': {'1': None, '2': None},
+            'params': par, 'weight': None, 'N': N, 'K': 1, 'form': form, 'beta_objects': 'shared'}
+    return spec, {'x_1': x1, 'x_2': x2, 'CHOICE': ch}
